@@ -481,6 +481,43 @@ def main(argv):
                         # potential; they agree to mesh accuracy only (same finding class as C11's axisymmetric reciprocity)
                         ck.violation("energy-vs-AJ:m:axi:mesh-level" if (axi and abs(W_all - Wc) <= 1e-6 * W_all and axi_mesh_level(build, work, "p%d_A" % t, p, err, 0)) else "energy-vs-AJ:m:%s" % ("axi" if axi else "planar"), "stored energy %.9g J, half of int A.J %.9g J, coenergy %.9g J (%s)" % (W_all, 0.5 * AJ, Wc, p.ptype),
                                      dict(files=run.files()))
+        # ================= contours that follow drawn ARCS (xo_selectpoint walks along the drawn entity nearest to the pick): a circle drawn as
+        # two half circles between the same two points, walked counter-clockwise and clockwise, from either point - the length of the closed
+        # contour is the circumference (of the polygon of chords the contour is made of: each arc by chords of its maximum segment angle)
+        for t, kind in enumerate("ehm"):
+            p = gen.gen_disc(kind, rng)
+            p.precision = 1e-8
+            run = Run(build, work, "arcc%d" % t, p)
+            ck.case(("arc-contour", kind), nontrivial=True)
+            if run.mesh() != 0 or run.solve() != 0:
+                ck.violation("tool-failed:" + kind, "mesher / solver failed on the box-with-circle problem: " + (run.mesh_out + run.solve_out)[-300:], dict(files=run.files()))
+                continue
+            a_ = p.arcs[0]
+            n0, n1 = p.nodes[a_["n0"]], p.nodes[a_["n1"]]
+            cx, cy = (n0["x"] + n1["x"]) / 2, (n0["y"] + n1["y"]) / 2
+            r = abs(n1["x"] - n0["x"]) / 2
+            dl = 0.2 * r
+            P0, P1 = (n0["x"], n0["y"]), (n1["x"], n1["y"])       # left and right end of the horizontal diameter; arc 0 is the lower half (n0 -> n1)
+            walks = dict(ccw0=[P0, (P1[0] - dl, P1[1] - dl), (P0[0] + dl, P0[1] + dl)], cw0=[P0, (P1[0] - dl, P1[1] + dl), (P0[0] + dl, P0[1] - dl)],
+                         ccw1=[P1, (P0[0] + dl, P0[1] + dl), (P1[0] - dl, P1[1] - dl)], cw1=[P1, (P0[0] + dl, P0[1] - dl), (P1[0] - dl, P1[1] + dl)])
+            s = lua_post.Session(kind, "p" + femmio.EXT[kind], analyze=False)
+            pre_ = kind + "o_"
+            for name, pts in walks.items():
+                s.raw("%sclearcontour()" % pre_)
+                for (x, y) in pts:
+                    s.raw("%sselectpoint(%.17g,%.17g)" % (pre_, x, y))
+                s.line_integral("L_" + name, 2)
+            rc, out, raw = s.run(build, run.dir, timeout=600)
+            u = UNIT_M[p.units]
+            k_ = int(math.ceil(180.0 / a_["maxseg"] - 1e-9))          # the contour follows each half circle by the chords of its own maximum segment angle
+            want = 2 * k_ * 2 * r * math.sin(math.pi / (2 * k_)) * u
+            for name in walks:
+                c = out.get("L_" + name)
+                stats["arc_contours"] = stats.get("arc_contours", 0) + 1
+                if rc != 0 or not c or c[0] is None or abs(c[0] - want) > 1e-6 * want:
+                    ck.violation("contour-length:arc:%s" % kind, "closed contour along the two half circles of a drawn circle of radius %g (%s, walk %s): length %r m, the circumference is %.9g m "
+                                 "(2 pi r = %.9g m)" % (r, p.units, name, c[0] if c else None, want, 2 * math.pi * r * u), dict(files=run.files(), walk=walks[name]))
+                    break
     finally:
         shutil.rmtree(work, ignore_errors=True)
     ck.notes["input_distribution"] = stats
